@@ -177,7 +177,7 @@ def run_shard(ctx):
     from mindsdb_sql.planner import plan_query
     from mindsdb_sql.exceptions import PlanningException
     acc = ctx.acc
-    n = 2200 if ctx.tier == 'quick' else 120000
+    n = 3200 if ctx.tier == 'quick' else 120000
     for i in range(n):
         if not ctx.mine(i):
             continue
@@ -209,9 +209,14 @@ def run_shard(ctx):
         except NotImplementedError as e:
             plan, exc = None, e
         except Exception as e:
+            if info['extra'] in ('order', 'group', 'offset', 'foreign', 'having'):
+                # these clauses are to be REJECTED WITH PlanningException: any other exception is not that
+                acc.count('rejections_checked')
+                acc.fail({'part': 'forbidden-clause-not-rejected', 'clause': info['extra'], 'outcome': type(e).__name__}, {'text': text, 'error': str(e)[:200]})
+                continue
             acc.count('internal_error_is_C09')
             continue
-        forbidden = info['extra'] in ('order', 'group', 'offset', 'foreign')
+        forbidden = info['extra'] in ('order', 'group', 'offset', 'foreign', 'having')
         if forbidden:
             acc.count('rejections_checked')
             if exc is None or not isinstance(exc, PlanningException):
